@@ -69,6 +69,11 @@ def build_shape(shape, lay, base):
     assert rq("MKCALENDAR", "/user/cal2/", login=L)[0] == 201
     for u in ("f1", "e2x"):
         assert rq("PUT", "/user/cal2/%s.ics" % u, data=EV(u), login=L)[0] == 201
+    # targets for MOVE with Overwrite: T onto an existing item with the same UID (cross and same collection)
+    assert rq("PUT", "/user/cal2/e2dup.ics", data=EV("e2", "dup"), login=L)[0] == 201
+    shutil.copy(os.path.join(folder, "collection-root", "user", "cal", "e1.ics"),
+                os.path.join(folder, "collection-root", "user", "cal", "e1dup.ics"))
+    assert rq("PROPFIND", "/user/cal/", login=L, HTTP_DEPTH="1")[0] == 207
     assert rq("MKCOL", "/user/plain/", login=L)[0] == 201
     assert rq("MKCALENDAR", "/user/plain/sub/", login=L)[0] == 201
     assert rq("MKCOL", "/user/plain/bare/", login=L)[0] == 201
@@ -146,6 +151,12 @@ def op_requests():
         "move_cross_over": dict(method="MOVE", path="/user/cal/e2.ics", login=L,
                                 headers=dict(H, HTTP_DESTINATION=D + "/user/cal2/e2x.ics", HTTP_OVERWRITE="T"),
                                 kind="RMoveOverUid", coll="user/cal", href="e2.ics", coll2="user/cal2", href2="e2x.ics"),
+        "move_over_cross": dict(method="MOVE", path="/user/cal/e2.ics", login=L,
+                                headers=dict(H, HTTP_DESTINATION=D + "/user/cal2/e2dup.ics", HTTP_OVERWRITE="T"),
+                                kind="RMove", coll="user/cal", href="e2.ics", coll2="user/cal2", href2="e2dup.ics"),
+        "move_over_same": dict(method="MOVE", path="/user/cal/e1.ics", login=L,
+                               headers=dict(H, HTTP_DESTINATION=D + "/user/cal/e1dup.ics", HTTP_OVERWRITE="T"),
+                               kind="RMove", coll="user/cal", href="e1.ics", coll2="user/cal", href2="e1dup.ics"),
         "move_cross_empty": dict(method="MOVE", path="/user/cal/e3.ics", login=L, headers=dict(H, HTTP_DESTINATION=D + "/user/empty/e3.ics"),
                                  kind="RMove", coll="user/cal", href="e3.ics", coll2="user/empty", href2="e3.ics"),
         "proppatch": dict(method="PROPPATCH", path="/user/cal/", data=PROPPATCH % "x", login=L, kind="RPropPatch", coll="user/cal"),
@@ -173,7 +184,15 @@ def http_of(op):
     return {k: op[k] for k in ("method", "path", "data", "login", "headers") if k in op}
 
 
-def run_driver(case_dir, folder, conf, op, inject=None, list_before=(), list_after=(), timeout=120):
+FOLLOWUP_KEY = "user/abook/zz-same.vcf"
+FOLLOWUPS = [dict(method="PROPFIND", path="/user/", login=L, headers={"HTTP_DEPTH": "1"}),
+             dict(method="PUT", path="/" + FOLLOWUP_KEY, data=VC("zzs"), login=L),
+             dict(method="DELETE", path="/" + FOLLOWUP_KEY, login=L),
+             dict(method="PROPFIND", path="/user/abook/", login=L, headers={"HTTP_DEPTH": "1"})]
+FOLLOWUP_EXPECT = [207, 201, 200, 207]
+
+
+def run_driver(case_dir, folder, conf, op, inject=None, list_before=(), list_after=(), timeout=120, followups=()):
     spec = os.path.join(case_dir, "spec.json")
     outp = os.path.join(case_dir, "out.json")
     tr = os.path.join(case_dir, "trace.txt")
@@ -181,7 +200,7 @@ def run_driver(case_dir, folder, conf, op, inject=None, list_before=(), list_aft
         if os.path.exists(f):
             os.remove(f)
     json.dump(dict(folder=folder, conf=conf, fsync=True, request=http_of(op), list_before=list(list_before),
-                   list_after=list(list_after)), open(spec, "w"))
+                   list_after=list(list_after), followups=list(followups)), open(spec, "w"))
     cmd = ["strace", "-f", "-y", "-s", "70000", "-e", "trace=" + X.TRACE_CALLS, "-o", tr]
     if not (inject and "signal=" in inject):
         cmd.insert(2, "--seccomp-bpf")      # signal injection needs the syscall-entry stop
@@ -265,7 +284,7 @@ def unfaulted(base, shape, lay, opname):
         return dict(error="driver failed rc=%s %s" % (rc, txt[-800:]), **{k: c[k] for k in ("shape", "lay", "opname")})
     events = trace.parse(tr)
     post_entries = X.tree_entries(folder, names, contents)   # registers new contents before projecting writes
-    steps, locks = X.project(events, folder, names, contents, "req", "end")
+    steps, locks, reads = X.project(events, folder, names, contents, "req", "end")
     post_abs = X.abs_of_tree(folder)
     # ---- model request
     root = os.path.join(folder, "collection-root")
@@ -328,7 +347,8 @@ def unfaulted(base, shape, lay, opname):
                 post_entries=post_entries, steps=[(s["step"], s["ok"]) for s in steps],
                 sys=[[(x.name, x.ordinal) for x in s["sys"]] for s in steps], locks=[(x.name, x.ordinal) for x in locks],
                 pre_abs=pre_abs, post_abs=post_abs, names=names, contents=contents, case_dir=c["case_dir"], error=None,
-                list_before=lb, list_after=["collection-root/" + coll])
+                list_before=lb, list_after=["collection-root/" + coll],
+                reads=[(x.name, x.ordinal, r, isdir) for x, r, isdir in reads])
 
 
 # ====================================================================== crash / fault injection
@@ -344,7 +364,8 @@ def inject_run(job):
     mode, err, sysname, ordinal = job["inject"]
     spec = "%s:%s:when=%d" % (sysname, "signal=KILL" if mode == "crash" else "error=" + err, ordinal)
     rc, txt, out, tr = run_driver(c["case_dir"], folder, c["conf"], op, inject=spec,
-                                  list_before=job.get("list_before", ()), list_after=job.get("list_after", ()))
+                                  list_before=job.get("list_before", ()), list_after=job.get("list_after", ()),
+                                  followups=FOLLOWUPS if mode != "crash" else ())
     res = dict(tag=job["tag"], status=(out or {}).get("status"), killed=out is None, problems=[], hit=False)
     # did the injection hit the intended call?
     hit_line = None
@@ -368,8 +389,19 @@ def inject_run(job):
             res["miss"] = "expected %r in %r" % (job["expect_frag"], hit_line[:200])
     except OSError as ex:
         res["miss"] = repr(ex)
+    # ---- the server process survived the failing call: it must go on serving (lock bookkeeping reset, nothing wedged)
+    if mode != "crash" and out is not None:
+        fu = out.get("followups")
+        res["followups"] = fu
+        if fu != FOLLOWUP_EXPECT:
+            res["problems"].append("the same server process does not serve normally after the failed request: "
+                                   "PROPFIND/PUT/DELETE/PROPFIND answered %s (expected %s)%s" % (
+                                       fu, FOLLOWUP_EXPECT, "; " + str(out.get("followup_errors"))[:200] if out.get("followup_errors") else ""))
+    if mode != "crash" and out is None:
+        res["problems"].append("the server process died on a failing system call")
     # ---- the all-or-nothing monitor on the surviving tree
     a = X.abs_of_tree(folder)
+    a.pop(FOLLOWUP_KEY, None)
     cls = "before" if a == job["pre_abs"] else ("after" if a == job["post_abs"] else "neither")
     if job["pre_abs"] == job["post_abs"]:
         cls = "same"
